@@ -3,7 +3,7 @@ from hypothesis import strategies as st
 from ..runner import Outcome
 from .. import ops as O, eqv, faults
 from ..doc import replay_history
-from ..hist import HistoryRun, bundle_sig, judge_state_diff, is_cycle_error_pair, col_kind, stale_cells_of
+from ..hist import HistoryRun, bundle_sig, judge_state_diff, is_cycle_error_pair, col_kind, stale_cells_of, made_formula_with_type_change
 from ..invariants import schema_mismatch
 
 ID = 'C04'
@@ -55,6 +55,10 @@ def check_after_failure(hr, out, before, uas, how, log_pos):
   bad, labels = judge_state_diff(before, now, hr.doc.log, log_pos)
   out.cls(*labels)
   formula_only = bad is not None and bad[0] in ('cells:usertable.formula', 'cells:usertable.helper')
+  if bad and bad[0] == 'cells:usertable.data' and made_formula_with_type_change(uas, bad[1], lambda t, c: col_kind(before, t, c)):
+    out.fail('C04:trace-after-failure:data-column-made-formula-with-type-change',
+             'bundle %r failed (%s) but the document differs from before the call' % (uas, how), bad[1])
+    return True
   if bad and not formula_only:
     out.fail('C04:trace-after-failure:%s:%s' % (how.split('#')[0], bad[0]),
              'bundle %r failed (%s) but the document differs from before the call' % (uas, how), bad[1])
